@@ -7,8 +7,10 @@ Every syntactic choice point of the Python source that matters for soundness is 
 below are what the code *does* for any value of those fields, the theorems in `Props/C02*.lean`
 hold for every configuration satisfying `Cfg.WF`, and `WF Gen.checkerCfg` is re-decided on every run.
 
-A requirement is `{id, optional, active}`; what `falsifiedBy(sample)` returns for the sample at hand
-is a function `fals : Nat → Bool` of the id (the sample is fixed during one `checkRequirements` call).
+A requirement is `{id, optional, active}`; what `falsifiedBy(sample)` does for the sample at hand
+is a function `fals : Nat → Option Bool` of the id (the sample is fixed during one `checkRequirements` call):
+`some b` = it returns `b`, `none` = it raises `RejectionException` (e.g. a user requirement evaluating a vector
+field outside its domain), which `SampleChecker.checkRequirements` turns into a rejection.
 -/
 namespace Scenic.Checker
 
@@ -60,7 +62,8 @@ structure Cfg where
   bKeepMandatory : Bool
   /-- threshold on the number of IntersectionRequirements for keeping the blanket pre-check -/
   bBlanketMin : Nat
-  /-- `except RejectionException as e: return e` (a rejection, i.e. not `None`) -/
+  /-- `except RejectionException as e: return e` (a rejection, i.e. not `None`); `false` = the handler
+      returns `None`, i.e. a sample whose check raised is *accepted* -/
   catchRejects : Bool
 deriving Repr, DecidableEq
 
@@ -122,24 +125,35 @@ inductive Outcome where
   | reject (id : Nat)
   /-- `falsifiedBy` asserts `self.active`: evaluating an inactive requirement raises AssertionError -/
   | crash
+  /-- `falsifiedBy` of requirement `id` raised RejectionException and `checkRequirements` returned it:
+      the sample is rejected (no metrics are recorded for that requirement) -/
+  | rejectExc (id : Nat)
 deriving Repr, DecidableEq
 
-/-- the `for req in …:` loop of `checkRequirementsInner`; returns the ids evaluated, in order, with the
-    value `falsifiedBy` returned, and the outcome -/
-def evalLoop (rejectWhen fallthrough : Bool) (fals : Nat → Bool) : List Req → List (Nat × Bool) × Outcome
+/-- what `checkRequirements` makes of a RejectionException raised by requirement `id`:
+    `return e` (a rejection) or, for a handler returning `None`, acceptance of the sample -/
+def onRaise (catchRejects : Bool) (id : Nat) : Outcome :=
+  if catchRejects then .rejectExc id else .accept
+
+/-- the `for req in …:` loop of `checkRequirementsInner` inside the `try` of `checkRequirements`; returns the
+    ids evaluated to completion, in order, with the value `falsifiedBy` returned, and the outcome -/
+def evalLoop (rejectWhen fallthrough catchRejects : Bool) (fals : Nat → Option Bool) :
+    List Req → List (Nat × Bool) × Outcome
   | [] => ([], if fallthrough then .accept else .reject 0)
   | r :: rs =>
     if !r.active then ([], .crash) else
-    let f := fals r.id
-    if f == rejectWhen then ([(r.id, f)], .reject r.id)
-    else
-      let (ev, out) := evalLoop rejectWhen fallthrough fals rs
-      ((r.id, f) :: ev, out)
+    match fals r.id with
+    | none => ([], onRaise catchRejects r.id)
+    | some f =>
+      if f == rejectWhen then ([(r.id, f)], .reject r.id)
+      else
+        let (ev, out) := evalLoop rejectWhen fallthrough catchRejects fals rs
+        ((r.id, f) :: ev, out)
 
 /-- the decision part of `WeightedAcceptanceChecker.checkRequirementsInner` -/
-def weightedDecide (c : Cfg) (key : Req → Cost) (reqs : List Req) (fals : Nat → Bool) :
+def weightedDecide (c : Cfg) (key : Req → Cost) (reqs : List Req) (fals : Nat → Option Bool) :
     List (Nat × Bool) × Outcome :=
-  evalLoop c.wRejectWhen c.wFallthroughAccepts fals
+  evalLoop c.wRejectWhen c.wFallthroughAccepts c.catchRejects fals
     (if c.wLoopSorted then sortedRequirements c key reqs else reqs)
 
 /-! ### BasicChecker -/
@@ -153,18 +167,20 @@ def basicSelect (c : Cfg) (initialCollisionCheck : Bool) (isBlanket isIntersecti
       isBlanket r.id && initialCollisionCheck && decide (nInter ≥ c.bBlanketMin)
     else c.bKeepMandatory
 
-def basicLoop (c : Cfg) (fals : Nat → Bool) : List Req → List (Nat × Bool) × Outcome
+def basicLoop (c : Cfg) (fals : Nat → Option Bool) : List Req → List (Nat × Bool) × Outcome
   | [] => ([], if c.bFallthroughAccepts then .accept else .reject 0)
   | r :: rs =>
     if c.bGuardActive && !r.active then
       basicLoop c fals rs
     else if !r.active then ([], .crash)
     else
-      let f := fals r.id
-      if f == c.bRejectWhen then ([(r.id, f)], .reject r.id)
-      else
-        let (ev, out) := basicLoop c fals rs
-        ((r.id, f) :: ev, out)
+      match fals r.id with
+      | none => ([], onRaise c.catchRejects r.id)
+      | some f =>
+        if f == c.bRejectWhen then ([(r.id, f)], .reject r.id)
+        else
+          let (ev, out) := basicLoop c fals rs
+          ((r.id, f) :: ev, out)
 
 /-! ## the statistics kept by WeightedAcceptanceChecker -/
 
@@ -212,7 +228,7 @@ def applyMetrics (c : Cfg) : State → List (Nat × Bool) → List Rat → State
 
 /-- one `WeightedAcceptanceChecker.checkRequirements` call: order from the current statistics,
     evaluation, statistics update -/
-def weightedCheck (c : Cfg) (bufferSize : Nat) (st : State) (reqs : List Req) (fals : Nat → Bool)
+def weightedCheck (c : Cfg) (bufferSize : Nat) (st : State) (reqs : List Req) (fals : Nat → Option Bool)
     (times : List Rat) : State × List (Nat × Bool) × Outcome :=
   let (ev, out) := weightedDecide c (st.key bufferSize) reqs fals
   (applyMetrics c st ev times, ev, out)
@@ -222,23 +238,43 @@ def weightedCheck (c : Cfg) (bufferSize : Nat) (st : State) (reqs : List Req) (f
 structure Attempt where
   /-- `Samplable.sampleAll` raised RejectionException for this candidate -/
   sampleRejected : Bool
-  /-- `req.falsifiedBy(sample)` by requirement id -/
-  fals : Nat → Bool
+  /-- `req.falsifiedBy(sample)` by requirement id (`none` = raises RejectionException) -/
+  fals : Nat → Option Bool
   /-- durations measured by the checker for the successive evaluations -/
   times : List Rat
 
-/-- returns the index (from `k`) of the accepted candidate, `none` if the candidates are exhausted
+/-- the rejection loop of `_generateInner` over an arbitrary checker with state `σ`:
+    returns the index (from `k`) of the accepted candidate, `none` if the candidates are exhausted
     (RejectionException after maxIterations) or the checker crashed -/
-def generateInner (c : Cfg) (bufferSize : Nat) (reqs : List Req) :
-    State → List Attempt → Nat → State × Option Nat
+def generateWith {σ : Type} (check : σ → Attempt → σ × Outcome) : σ → List Attempt → Nat → σ × Option Nat
   | st, [], _ => (st, none)
   | st, a :: as, k =>
-    if a.sampleRejected then generateInner c bufferSize reqs st as (k + 1)
+    if a.sampleRejected then generateWith check st as (k + 1)
     else
-      match weightedCheck c bufferSize st reqs a.fals a.times with
-      | (st', _, .accept) => (st', some k)
-      | (st', _, .reject _) => generateInner c bufferSize reqs st' as (k + 1)
-      | (st', _, .crash) => (st', none)
+      match check st a with
+      | (st', .accept) => (st', some k)
+      | (st', .reject _) => generateWith check st' as (k + 1)
+      | (st', .rejectExc _) => generateWith check st' as (k + 1)
+      | (st', .crash) => (st', none)
+
+/-- one call of the default checker as a step of the rejection loop -/
+def weightedStep (c : Cfg) (bufferSize : Nat) (reqs : List Req) (st : State) (a : Attempt) : State × Outcome :=
+  let r := weightedCheck c bufferSize st reqs a.fals a.times
+  (r.1, r.2.2)
+
+/-- `_generateInner` with a `WeightedAcceptanceChecker` -/
+def generateInner (c : Cfg) (bufferSize : Nat) (reqs : List Req) :
+    State → List Attempt → Nat → State × Option Nat :=
+  generateWith (weightedStep c bufferSize reqs)
+
+/-- one call of a `BasicChecker` (stateless) whose `setRequirements` selected `sel` -/
+def basicStep (c : Cfg) (sel : List Req) (_ : Unit) (a : Attempt) : Unit × Outcome :=
+  ((), (basicLoop c a.fals sel).2)
+
+/-- `_generateInner` with a `BasicChecker` -/
+def generateInnerBasic (c : Cfg) (initialCollisionCheck : Bool) (isBlanket isIntersection : Nat → Bool)
+    (reqs : List Req) (atts : List Attempt) : Option Nat :=
+  (generateWith (basicStep c (basicSelect c initialCollisionCheck isBlanket isIntersection reqs)) () atts 0).2
 
 /-- soft-requirement activation `random.random() <cmp> req.prob`; `cmpLe` = the comparison is `<=` -/
 def activates (cmpLe : Bool) (u prob : Rat) : Bool :=
